@@ -496,13 +496,13 @@ PLAN['C12'] = {
          maplock('maplock_unlocked_neg', 2, 2, 3, ['GetRoots', 'GetNumLeaves'], unlocked=['GetNumLeaves'], expect_violation=True),
          maplock('maplock_schedules', 2, 1, 4, ALLKINDS, maxcalls=1, emit=True, x='schedout={scratch}/schedules.json'),
          partial('lock_replay', ['mod', 'vrem', 'ingest', 'prune', 'undo'], 3, 2, stack=1, und=1, fam='lockrun', race=True,
-                 x='sched={scratch}/schedules.json,persite=3,stress=2,maxtrace=30000', trace_module='MapLockTrace',
+                 x='sched={scratch}/schedules.json,persite=3,stress=2,maxtrace=30000,readpop=40', trace_module='MapLockTrace',
                  harness_workers=2)] if tier == 'quick' else
         [maplock('maplock_mc', 3, 2, 3, ['GetRoots', 'GetNumLeaves', 'Prove']),
          maplock('maplock_unlocked_neg', 2, 2, 3, ['GetRoots', 'GetNumLeaves'], unlocked=['GetNumLeaves'], expect_violation=True),
          maplock('maplock_schedules', 2, 1, 4, ALLKINDS, maxcalls=1, emit=True, x='schedout={scratch}/schedules.json'),
          partial('lock_replay', ['mod', 'vrem', 'ingest', 'prune', 'undo'], 4, 2, stack=1, und=1, fam='lockrun', race=True,
-                 x='sched={scratch}/schedules.json,persite=12,stress=1,maxtrace=30000', trace_module='MapLockTrace',
+                 x='sched={scratch}/schedules.json,persite=12,stress=1,maxtrace=30000,readpop=40', trace_module='MapLockTrace',
                  harness_workers=2, timeout=14000)]),
     'rule': 'spec/MapLock.tla models one writer whose critical section passes through interior points, readers issuing queries, '
             'and Go\'s RWMutex with writer preference; TLC checks over all interleavings that the lock discipline implies '
